@@ -94,7 +94,12 @@ def main(tier, seed):
         "trusted_base": TRUSTED_BASE_COMMON + [
             "hand model DB.v / Index.v with instants as exact Z microseconds, tied by correspondence in four process time zones",
             "datetime arithmetic (astimezone, the tz database, timestamp/fromtimestamp) is Python run time: the instant a handed-in datetime denotes is computed with Python itself",
-            "Stamp.v: float stamps strictly ordered for adjacent microseconds - a finite sweep by vm_compute (a test), primitive floats of the kernel",
+            "Stamp.v / proofs/StampP.v: the float stamps of the index (one correctly rounded binary64 division of the microsecond count by 10^6) compare exactly as the "
+            "integer instants for every pair in 1700-2240 - a theorem proved with Flocq 4 (Core, BinarySingleNaN, PrimFloat bridge) over the kernel's primitive floats",
+            "axioms of C08_float_stamps_order_instants, all declared by the Coq standard library: the classical real numbers (ClassicalDedekindReals.sig_forall_dec, sig_not_dec), "
+            "Classical_Prop.classic, FunctionalExtensionality.functional_extensionality_dep, and the primitive Uint63 / PrimFloat operations with their specifications "
+            "(Uint63 *_spec, FloatAxioms *_spec); that CPython's float division and comparison are IEEE-754 binary64 round-to-nearest-even is trusted",
+            "C08_float_stamps_adjacent_tested stays as a labelled test (vm_compute sweep), not a theorem",
             "Print Assumptions: " + json.dumps(b["assumptions"])],
         "theorems": b["theorems"], "forbidden_tokens_found": b["forbidden"],
         "evaluations": len(cases), "steps_compared": sum(len(c[2]) for c in cases),
